@@ -211,6 +211,7 @@ pub fn run(space: &Space, bounds: &Bounds, from: usize, to: usize, out: &str, ba
 	let skip: Vec<&str> = skip.split('|').filter(|x| !x.is_empty()).collect();
 	let mut skipped = 0u64;
 	install_panic_hook();
+	alloc_track::arm();
 	steps::set_announce(single);
 	let mut w = Nd::create(out);
 	let mut bad = Nd::create(bad_out);
